@@ -619,7 +619,7 @@ class Interp:
             elif p == 'std::option::Option':
                 new = 'some()' if vn == 'Some' else 'none'
             elif p == 'std::task::Poll' and vn == 'Ready':
-                new = tag_of_operand(rv['ops'][0], tags) if rv['ops'] else None
+                new = 'ready(%s)' % ((tag_of_operand(rv['ops'][0], tags) if rv['ops'] else None) or '')
         elif k == 'discr':
             base = tags.get(rv['pl']['l']) if not [e for e in rv['pl']['p'] if e['k'] not in ('deref',)] else tag_of_place(rv['pl'], tags)
             if base is not None:
@@ -915,9 +915,13 @@ class Interp:
         if c is None:
             c = [(bi, t) for bi, t in body.calls() if t.get('fn') == fn_path]
             if not c:
-                pre = body.path + '::{closure'
+                pres = [body.path + '::{closure']
+                for (cp_, hp_) in getattr(self.f, 'folded', []):
+                    if cp_ == body.path:
+                        pres.append(hp_ + '::{closure')
+                pres = tuple(pres)
                 for cb in self.f.body_list:
-                    if cb.path.startswith(pre) and not cb.is_coroutine:
+                    if cb.path.startswith(pres) and not cb.is_coroutine:
                         for bi, t in cb.calls():
                             if t.get('fn') == fn_path:
                                 c.append((bi, t))
